@@ -1,7 +1,8 @@
 (* Model/DurationOps.v — executable model of the arithmetic of src/pendulum/duration.py (C10) and of the delegation of
    src/pendulum/interval.py to as_duration().  Built on the shared layer of C09: Spec/TdFloat.v (timedelta as integer microseconds,
    floats as SpecFloat), Model/Duration.v (Duration.__new__), and on the TRANSLATED integer parts in Gen/DurationOps.v
-   (`py_divide_and_round`, `py_Duration_to_microseconds`, the integer constructor arguments of every operator branch).
+   (`py_divide_and_round`, `py_Duration_to_microseconds`, `py_timedelta_to_microseconds_duration / _plain` = the divisor of
+   // / % divmod for a Duration / a plain timedelta operand, the integer constructor arguments of every operator branch).
    Hand-written here: the float expressions (total_seconds() sums, `_total * k`, int / int, divmod(int, float), as_integer_ratio),
    the construction `Duration(seconds=<float>, years=, months=)`, Python's binary-operator protocol (NotImplemented -> reflected
    method -> TypeError; a right operand whose class is a subclass of the left one is asked first) and the operators a Duration
@@ -120,6 +121,11 @@ Definition dur_mul (d : dur) (o : value) : result opres :=
   | _ => Ok RNotImpl
   end.
 
+(* // / % divmod by another timedelta divide by `_timedelta_to_microseconds(other)` (translated): a Duration (or Interval) operand
+   reports its own `_to_microseconds()`, a PLAIN datetime.timedelta its public (days, seconds, microseconds), i.e. the normal form of
+   the microseconds it holds.  A zero divisor is Python's ZeroDivisionError of the integer // % divmod. *)
+Definition plain_td (n : Z) : ptd := td_norm n.
+
 Definition dur_floordiv (d : dur) (o : value) : result opres :=
   match o with
   | VInt k =>
@@ -127,9 +133,11 @@ Definition dur_floordiv (d : dur) (o : value) : result opres :=
       bind (duration_new 0 0 (py_Duration_floordiv_int_microseconds d k) 0 0 0 0
                          (py_Duration_floordiv_int_years d k) (py_Duration_floordiv_int_months d k)) (fun r => Ok (RDur r))
   | VDur d2 | VIvl d2 =>
-      if py_Duration_to_microseconds d2 =? 0 then Raise E_ZeroDivisionError
+      if py_timedelta_to_microseconds_duration d2 =? 0 then Raise E_ZeroDivisionError
       else Ok (RInt (py_Duration_floordiv_duration_value d d2))
-  | VTd _ => Raise E_AttributeError          (* other._to_microseconds: a plain timedelta has no such attribute *)
+  | VTd n =>
+      if py_timedelta_to_microseconds_plain (plain_td n) =? 0 then Raise E_ZeroDivisionError
+      else Ok (RInt (py_Duration_floordiv_timedelta_value d (plain_td n)))
   | VFloat _ => Ok RNotImpl
   end.
 
@@ -145,27 +153,34 @@ Definition dur_truediv (d : dur) (o : value) : result opres :=
       bind (divide_and_round_float (d_months d) x) (fun mo =>
       bind (duration_new 0 0 (py_Duration_truediv_float_microseconds d a b) 0 0 0 0
                          (py_Duration_truediv_float_years d a b) mo) (fun r => Ok (RDur r))))
+  (* usec / _timedelta_to_microseconds(other): int / int true division (hand-modelled) of the translated operands *)
   | VDur d2 | VIvl d2 =>
-      bind (py_int_truediv (py_Duration_to_microseconds d) (py_Duration_to_microseconds d2)) (fun x => Ok (RFloat x))
-  | VTd _ => Raise E_AttributeError
+      bind (py_int_truediv (py_Duration_to_microseconds d) (py_timedelta_to_microseconds_duration d2)) (fun x => Ok (RFloat x))
+  | VTd n =>
+      bind (py_int_truediv (py_Duration_to_microseconds d) (py_timedelta_to_microseconds_plain (plain_td n))) (fun x => Ok (RFloat x))
   end.
 
 Definition dur_mod (d : dur) (o : value) : result opres :=
   match o with
   | VDur d2 | VIvl d2 =>
-      if py_Duration_to_microseconds d2 =? 0 then Raise E_ZeroDivisionError
+      if py_timedelta_to_microseconds_duration d2 =? 0 then Raise E_ZeroDivisionError
       else bind (dur_of_us (py_Duration_mod_duration_microseconds d d2)) (fun r => Ok (RDur r))
-  | VTd _ => Raise E_AttributeError
+  | VTd n =>
+      if py_timedelta_to_microseconds_plain (plain_td n) =? 0 then Raise E_ZeroDivisionError
+      else bind (dur_of_us (py_Duration_mod_timedelta_microseconds d (plain_td n))) (fun r => Ok (RDur r))
   | _ => Ok RNotImpl
   end.
 
 Definition dur_divmod (d : dur) (o : value) : result opres :=
   match o with
   | VDur d2 | VIvl d2 =>
-      if py_Duration_to_microseconds d2 =? 0 then Raise E_ZeroDivisionError
+      if py_timedelta_to_microseconds_duration d2 =? 0 then Raise E_ZeroDivisionError
       else bind (dur_of_us (py_Duration_divmod_duration_microseconds d d2))
                 (fun r => Ok (RPair (py_Duration_divmod_duration_quotient d d2) r))
-  | VTd _ => Raise E_AttributeError
+  | VTd n =>
+      if py_timedelta_to_microseconds_plain (plain_td n) =? 0 then Raise E_ZeroDivisionError
+      else bind (dur_of_us (py_Duration_divmod_timedelta_microseconds d (plain_td n)))
+                (fun r => Ok (RPair (py_Duration_divmod_timedelta_quotient d (plain_td n)) r))
   | _ => Ok RNotImpl
   end.
 
